@@ -561,6 +561,12 @@ def _process_dep_declarations(content: bytes, type: RenderType) -> Tuple[bytes, 
         comp_hashes.append(comp_cls_hash)
         seen_comp_hashes.add(comp_cls_hash)
 
+        # The HTML may have been rendered a while ago (e.g. kept in a variable or in a template
+        # fragment cache), and the media cache may have evicted the scripts since. Make sure that
+        # what we are about to inline or announce by URL can actually be served.
+        cache_component_js(comp_hash_mapping[comp_cls_hash])
+        cache_component_css(comp_hash_mapping[comp_cls_hash])
+
         # Schedule to load the `<script>` / `<link>` tags for the JS / CSS from `Component.js/css`.
         comp_data.append((comp_cls_hash, "js", None))
         comp_data.append((comp_cls_hash, "css", None))
